@@ -1,6 +1,7 @@
 use crate::runner::{Ctx, Property};
 
 pub mod c01;
+pub mod c03;
 pub mod c14;
 pub mod c15;
 pub mod c16;
@@ -11,6 +12,7 @@ pub mod c20;
 pub fn all(ctx: &Ctx) -> Vec<Property> {
     vec![
         c01::property(ctx),
+        c03::property(ctx),
         c14::property(ctx),
         c15::property(ctx),
         c16::property(ctx),
